@@ -75,6 +75,14 @@ var defines = map[string]*Define{}
 var ghostInts = map[string]bool{}
 var ghostFns = map[string]bool{}
 var stateInvariants []*Axiom
+
+// TypeContract bounds the methods promoted onto *T from embedded fields.
+type TypeContract struct {
+	Type    string
+	Allowed []string
+}
+
+var typeContracts []TypeContract
 var globalInvariants []Clause // facts about package-level state: assumed at entry (to be re-established at exit by writers)
 var axioms []*Axiom
 
@@ -353,6 +361,22 @@ func parseContracts(path string, unit string) (map[string]*Contract, error) {
 		case "ghost":
 			// ghost name int
 			ghostInts[fields[1]] = true
+			continue
+		case "type":
+			// type T promotes M1, M2, ... : the methods that reach *T through embedding are exactly-at-most these
+			// (a contract on the method SET of a type: decided by the type checker, no solver involved)
+			rest := strings.TrimSpace(strings.TrimPrefix(line, "type"))
+			parts := strings.SplitN(rest, " promotes", 2)
+			if len(parts) != 2 {
+				return nil, fmt.Errorf("%s:%d: expected `type T promotes M1, M2, ...`", path, ln)
+			}
+			tc := TypeContract{Type: strings.TrimSpace(parts[0])}
+			for _, m := range strings.Split(parts[1], ",") {
+				if m = strings.TrimSpace(m); m != "" {
+					tc.Allowed = append(tc.Allowed, m)
+				}
+			}
+			typeContracts = append(typeContracts, tc)
 			continue
 		case "invariant":
 			rest := strings.TrimSpace(strings.TrimPrefix(line, "invariant"))
